@@ -228,6 +228,23 @@ def run(ctx: Ctx) -> Result:
                                                              'what': f'push of a {n}-byte item, then {k_items} items on the stack'},
                                                    'expected': f'{want}: an item longer than stack_max_item_size or more than stack_max_items items end the authorization with False; anything within both limits is allowed',
                                                    'observed': str(got), 'how_to_run': './check C07 --tier quick'})
+            # ... and the call-stack limit is the limit of every script of the list: a loop / a recursion in the LAST script (the lock)
+            # that needs more than the limit ends the authorization with False
+            body = G.push(b'\xff') + bytes([N['ADD_INTS'], 2])
+            loop_lock = bytes([N['LOOP']]) + len(body).to_bytes(2, 'big') + body + bytes([N['POP0'], N['TRUE']])
+            rec_body = bytes([N['DUP'], N['IF']]) + (len(body) + 2).to_bytes(2, 'big') + body + bytes([N['CALL'], 0])
+            rec_lock = bytes([N['DEF'], 0]) + len(rec_body).to_bytes(2, 'big') + rec_body + bytes([N['CALL'], 0, N['POP0'], N['TRUE']])
+            for cl in (1, 2, 4, 7, 40):
+                for n in (cl - 1, cl, cl + 1, cl + 2):
+                    if n < 1: continue
+                    for what_, lock, want in (('a loop of n iterations', loop_lock, n <= cl), ('a recursion n + 1 calls deep', rec_lock, n + 1 <= cl)):
+                        for scripts in ([G.push(bytes([n])), lock], [bytes([N['TRUE'], N['POP0']]), G.push(bytes([n])), lock], [G.push(bytes([n])) + lock]):
+                            res.note_case(('auth-call-limit', cl, n, what_, len(scripts)))
+                            try: got = F.run_auth_scripts(scripts, {}, {}, {}, 1024, 1024, cl)
+                            except BaseException as e: got = 'RAISED:' + type(e).__name__
+                            if got != want and len(res.violations) < 10:
+                                res.violations.append({'input': {'source': 'run_auth_scripts', 'scripts': [x.hex() for x in scripts], 'callstack_limit': cl, 'what': f'{what_}, n = {n}, in the last of {len(scripts)} script(s)'},
+                                                       'expected': f'{want}: the configured call-stack limit bounds loops and call chains in every script of the list', 'observed': str(got), 'how_to_run': './check C07 --tier quick'})
     vmrun.in_big_thread(auth_limits)
     # no single instruction loops without end or grows an operand without bound: the zero-padding bitwise instructions on operands
     # of different lengths, in both orders, end with an item as long as the longer operand
